@@ -441,5 +441,73 @@ package protocol
 // Assumed frame (not verified here): storing a trailer copies key and value into buffers owned by the trailer,
 // it does not write into the array its arguments live in (the connection buffer).
 //@ func Trailer.UpdateArgBytes(t, key, value) err
-//@   modifies t._all, alltype(protocol.argsKV), membut(key, value)
+//@   modifies t._all, alltype(protocol.argsKV), membut(parseArr)
 //@   allocates
+
+// Assumed frames (not verified here) of the header setters the HTTP/1 parsers call while they scan the
+// connection buffer: a setter copies its byte arguments into buffers owned by the header; it never writes into
+// the array that is being parsed. parseArr (ghost) is the id of that array, set by the parser on entry; the
+// assumption is the ownership fact "header-owned buffers are disjoint from the connection's read buffer",
+// which this tool chain does not track.
+//@ ghost var parseArr int
+//@ func RequestHeader.SetMethodBytes(h, method)
+//@   modifies h._all, membut(parseArr)
+//@   allocates
+//@ func RequestHeader.SetRequestURIBytes(h, requestURI)
+//@   modifies h._all, membut(parseArr)
+//@   allocates
+//@ func RequestHeader.SetHostBytes(h, host)
+//@   modifies h._all, membut(parseArr)
+//@   allocates
+//@ func RequestHeader.SetUserAgentBytes(h, userAgent)
+//@   modifies h._all, membut(parseArr)
+//@   allocates
+//@ func RequestHeader.SetContentTypeBytes(h, contentType)
+//@   modifies h._all, membut(parseArr)
+//@   allocates
+//@ func RequestHeader.SetContentLengthBytes(h, contentLength)
+//@   modifies h._all, membut(parseArr)
+//@   allocates
+//@ func RequestHeader.AddArgBytes(h, key, value, noValue)
+//@   modifies h._all, alltype(protocol.argsKV), membut(parseArr)
+//@   allocates
+//@ func RequestHeader.SetArgBytes(h, key, value, noValue)
+//@   modifies h._all, alltype(protocol.argsKV), membut(parseArr)
+//@   allocates
+//@ func RequestHeader.PeekArgBytes(h, key) r
+//@ func Trailer.SetTrailers(t, trailers) err
+//@   modifies t._all, alltype(protocol.argsKV), membut(parseArr)
+//@   allocates
+//@ func ResponseHeader.SetContentTypeBytes(h, contentType)
+//@   modifies h._all, membut(parseArr)
+//@   allocates
+//@ func ResponseHeader.SetServerBytes(h, server)
+//@   modifies h._all, membut(parseArr)
+//@   allocates
+//@ func ResponseHeader.SetContentLengthBytes(h, contentLength)
+//@   modifies h._all, membut(parseArr)
+//@   allocates
+//@ func ResponseHeader.SetContentEncodingBytes(h, contentEncoding)
+//@   modifies h._all, membut(parseArr)
+//@   allocates
+//@ func ResponseHeader.AddArgBytes(h, key, value, noValue)
+//@   modifies h._all, alltype(protocol.argsKV), membut(parseArr)
+//@   allocates
+//@ func ResponseHeader.SetArgBytes(h, key, value, noValue)
+//@   modifies h._all, alltype(protocol.argsKV), membut(parseArr)
+//@   allocates
+//@ func ResponseHeader.PeekArgBytes(h, key) r
+//@ func ResponseHeader.Peek(h, key) r
+//@   modifies h._all, membut(parseArr)
+//@   allocates
+//@ func ResponseHeader.ParseSetCookie(h, value)
+//@   modifies h._all, alltype(protocol.argsKV), membut(parseArr)
+//@   allocates
+//@ func ResponseHeader.SetProtocol(h, p)
+//@   modifies h._all
+
+//@ func ParseContentLength(b) r, err
+//@   props C03
+//@   allocates
+//@   ensures err == nil ==> r >= 0
+
